@@ -9,6 +9,14 @@ package c21_test
 // server receive, server send, client receive), with and without compression
 // (a harness run-length compressor whose output size the oracle computes
 // itself). The oracle is a reference model of the statement plus a wire log.
+//
+// RPC shapes: unary through cc.Invoke, bidi, server-streaming, client-streaming
+// and a unary method driven through the stream API (what Invoke does
+// internally). Wherever the application holds a stream (client: every shape but
+// Invoke; server: every streaming handler) the plan chooses per message between
+// the ordinary SendMsg(msg) and the PreparedMsg path (pm.Encode(stream, msg);
+// SendMsg(pm)). The oracle does not know about the path: the statement's limit
+// applies to the encoded (post-compression) size whichever way it was produced.
 
 import (
 	"bytes"
@@ -107,7 +115,19 @@ const (
 type msgSpec struct {
 	Pat int `json:"pat"`
 	Len int `json:"len"`
+	// Prep: send through (&grpc.PreparedMsg{}).Encode(stream, msg) + SendMsg(pm)
+	// instead of SendMsg(msg). Only honoured where the sender holds a stream.
+	Prep bool `json:"prep,omitempty"`
 }
+
+// RPC shapes (plan.Shape, meaningful when plan.Stream is set).
+const (
+	shapeBidi        = iota // /Stream, client and server streaming
+	shapeSStream            // /ServerStream: one request, 0-3 responses
+	shapeCStream            // /ClientStream: 1-3 requests, one response
+	shapeUnaryStream        // /Unary (unary handler) driven through cc.NewStream
+	numShapes
+)
 
 type plan struct {
 	HasSC    bool      `json:"has_sc"`
@@ -119,7 +139,8 @@ type plan struct {
 	SrvSend  *int      `json:"srv_send"`
 	SrvRecv  *int      `json:"srv_recv"`
 	Compress bool      `json:"compress"`
-	Stream   bool      `json:"stream"`
+	Stream   bool      `json:"stream"` // client uses cc.NewStream (false: cc.Invoke on /Unary)
+	Shape    int       `json:"shape,omitempty"`
 	Reqs     []msgSpec `json:"reqs"`
 	Resps    []msgSpec `json:"resps"`
 }
@@ -133,11 +154,46 @@ const (
 	defServerSend = math.MaxInt32
 )
 
-func methodOf(p plan) string {
-	if p.Stream {
-		return e2e.StreamMethod
+func (p plan) shape() int {
+	if p.Shape < 0 || p.Shape >= numShapes {
+		return shapeBidi
 	}
-	return e2e.UnaryMethod
+	return p.Shape
+}
+
+// cStreams / sStreams: the RPC's cardinality (the StreamDesc on both sides).
+func (p plan) cStreams() bool {
+	return p.Stream && (p.shape() == shapeBidi || p.shape() == shapeCStream)
+}
+func (p plan) sStreams() bool {
+	return p.Stream && (p.shape() == shapeBidi || p.shape() == shapeSStream)
+}
+
+// streamHandler: the server side is a streaming handler (holds a
+// grpc.ServerStream); otherwise it is the unary handler.
+func (p plan) streamHandler() bool { return p.Stream && p.shape() != shapeUnaryStream }
+
+func shapeName(p plan) string {
+	if !p.Stream {
+		return "unary"
+	}
+	return [...]string{"stream", "sstream", "cstream", "unary_via_stream"}[p.shape()]
+}
+
+// methodOf returns the full method and its last path element.
+func methodOf(p plan) (full, name string) {
+	if !p.Stream {
+		return e2e.UnaryMethod, "Unary"
+	}
+	switch p.shape() {
+	case shapeSStream:
+		return e2e.SStreamMethod, "ServerStream"
+	case shapeCStream:
+		return e2e.CStreamMethod, "ClientStream"
+	case shapeUnaryStream:
+		return e2e.UnaryMethod, "Unary"
+	}
+	return e2e.StreamMethod, "Stream"
 }
 
 // scLimits: the selected method config is the most specific matching entry
@@ -260,14 +316,14 @@ func model(p plan) expect {
 			e.stage, e.code = "client_send", codes.ResourceExhausted
 			e.reqsSeen, e.reqsOnWire = i, i
 			e.handlerRecvErr = true
-			e.handlerRuns = p.Stream && i > 0 // the stream may not even be created when nothing was sent... see judge
+			e.handlerRuns = p.streamHandler() && i > 0 // the stream may not even be created when nothing was sent... see judge
 			return e
 		}
 		if w > l.sRecv || m.Len > l.sRecv {
 			e.stage, e.code = "server_recv", codes.ResourceExhausted
 			e.reqsSeen, e.reqsOnWire = i, i+1
 			e.handlerRecvErr = true
-			e.handlerRuns = p.Stream
+			e.handlerRuns = p.streamHandler()
 			return e
 		}
 	}
@@ -344,10 +400,18 @@ func sizeFor(rt *rapid.T, p plan, target int, label string) msgSpec {
 	return msgSpec{Pat: patZeros, Len: target}
 }
 
-func genMsgs(rt *rapid.T, p plan, n int, lims []int, label string) []msgSpec {
+// genMsgs: lims[0] is the sender's limit for this direction. canPrep: the
+// sender holds a stream, so each message may go through the PreparedMsg path;
+// prepared messages aim at the send limit more often (when it is reachable).
+func genMsgs(rt *rapid.T, p plan, n int, lims []int, canPrep bool, label string) []msgSpec {
 	var out []msgSpec
 	for i := 0; i < n; i++ {
-		l := rapid.SampledFrom(lims).Draw(rt, label+"_lim")
+		prep := canPrep && rapid.Bool().Draw(rt, label+"_prep")
+		ls := lims
+		if prep && lims[0] <= 1<<20 {
+			ls = append(append([]int(nil), lims...), lims[0], lims[0], lims[0])
+		}
+		l := rapid.SampledFrom(ls).Draw(rt, label+"_lim")
 		var d int
 		switch rapid.IntRange(0, 9).Draw(rt, label+"_dkind") {
 		case 0, 1:
@@ -363,13 +427,19 @@ func genMsgs(rt *rapid.T, p plan, n int, lims []int, label string) []msgSpec {
 		default:
 			d = -l // empty message
 		}
-		out = append(out, sizeFor(rt, p, l+d, label))
+		m := sizeFor(rt, p, l+d, label)
+		m.Prep = prep
+		out = append(out, m)
 	}
 	return out
 }
 
 func genPlan(rt *rapid.T) plan {
-	p := plan{Stream: rapid.Bool().Draw(rt, "stream"), Compress: rapid.IntRange(0, 2).Draw(rt, "compress") == 0}
+	p := plan{Compress: rapid.IntRange(0, 2).Draw(rt, "compress") == 0}
+	// shapes: Invoke 4, bidi 6, server-streaming 3, client-streaming 3, unary via NewStream 2 (of 18)
+	if sh := rapid.SampledFrom([]int{0, 0, 0, 0, 0, 0, 1, 1, 1, 2, 2, 2, 3, 3, -1, -1, -1, -1}).Draw(rt, "shape"); sh >= 0 {
+		p.Stream, p.Shape = true, sh
+	}
 	p.HasSC = rapid.IntRange(0, 3).Draw(rt, "has_sc") > 0
 	if p.HasSC {
 		used := map[int]bool{}
@@ -385,15 +455,18 @@ func genPlan(rt *rapid.T) plan {
 	}
 	p.DialSend, p.DialRecv = genOpt(rt, "dial_send", 50), genOpt(rt, "dial_recv", 50)
 	p.CallSend, p.CallRecv = genOpt(rt, "call_send", 40), genOpt(rt, "call_recv", 40)
-	p.SrvSend, p.SrvRecv = genOpt(rt, "srv_send", 50), genOpt(rt, "srv_recv", 50)
+	// a streaming handler can send prepared responses: give it a send limit more often
+	p.SrvSend, p.SrvRecv = genOpt(rt, "srv_send", map[bool]int{false: 50, true: 70}[p.streamHandler()]), genOpt(rt, "srv_recv", 50)
 	l := effective(p)
 	nreq, nresp := 1, 1
-	if p.Stream {
+	if p.cStreams() {
 		nreq = rapid.IntRange(1, 3).Draw(rt, "nreq")
+	}
+	if p.sStreams() {
 		nresp = rapid.IntRange(0, 3).Draw(rt, "nresp")
 	}
-	p.Reqs = genMsgs(rt, p, nreq, []int{l.cSend, l.cSend, l.sRecv}, "req")
-	p.Resps = genMsgs(rt, p, nresp, []int{l.cRecv, l.cRecv, l.sSend}, "resp")
+	p.Reqs = genMsgs(rt, p, nreq, []int{l.cSend, l.cSend, l.sRecv}, p.Stream, "req")
+	p.Resps = genMsgs(rt, p, nresp, []int{l.sSend, l.cRecv, l.cRecv}, p.streamHandler(), "resp")
 	return p
 }
 
@@ -409,10 +482,7 @@ func scJSON(p plan) string {
 		Req  *int64 `json:"maxRequestMessageBytes,omitempty"`
 		Resp *int64 `json:"maxResponseMessageBytes,omitempty"`
 	}
-	mname := "Unary"
-	if p.Stream {
-		mname = "Stream"
-	}
+	_, mname := methodOf(p)
 	var mcs []mc
 	for _, e := range p.SC {
 		var n name
@@ -441,6 +511,25 @@ type srvLog struct {
 	recvErr  error // first non-EOF RecvMsg error in the handler
 	sawEOF   bool
 	sendErrs []error
+}
+
+// encodeError marks a failure of PreparedMsg.Encode (as opposed to SendMsg).
+type encodeError struct{ err error }
+
+func (e encodeError) Error() string { return "PreparedMsg.Encode: " + e.err.Error() }
+
+// sendVia sends one raw message on a client or server stream, either the
+// ordinary way or through the PreparedMsg API, the way its users do it:
+// Encode against the stream, then SendMsg(pm).
+func sendVia(st grpc.Stream, b []byte, prep bool) error {
+	if !prep {
+		return e2e.SendBytes(st, b)
+	}
+	pm := &grpc.PreparedMsg{}
+	if err := pm.Encode(st, &b); err != nil {
+		return encodeError{err}
+	}
+	return st.SendMsg(pm)
 }
 
 func run(t *testing.T, p plan) vk.Result {
@@ -495,9 +584,12 @@ func runInBubble(p plan) vk.Result {
 				log.mu.Lock()
 				log.reqs = append(log.reqs, b)
 				log.mu.Unlock()
+				if !p.cStreams() {
+					break // a server-streaming handler receives its one request with one RecvMsg
+				}
 			}
-			for _, rp := range respPayloads {
-				if err := e2e.SendBytes(st, rp); err != nil {
+			for j, rp := range respPayloads {
+				if err := sendVia(st, rp, p.Resps[j].Prep); err != nil {
 					log.mu.Lock()
 					log.sendErrs = append(log.sendErrs, err)
 					log.mu.Unlock()
@@ -563,12 +655,13 @@ func runInBubble(p plan) vk.Result {
 			gotResps = append(gotResps, resp)
 		}
 	} else {
-		cs, err := pair.NewStream(ctx, e2e.StreamMethod, true, true, co...)
+		method, _ := methodOf(p)
+		cs, err := pair.NewStream(ctx, method, p.cStreams(), p.sStreams(), co...)
 		if err != nil {
 			return bad("NewStream failed: %v", err)
 		}
 		for i, rp := range reqPayloads {
-			if err := e2e.SendBytes(cs, rp); err != nil {
+			if err := sendVia(cs, rp, p.Reqs[i].Prep); err != nil {
 				if err != io.EOF {
 					sendErr, sendFailedAt = err, i
 				}
@@ -587,6 +680,9 @@ func runInBubble(p plan) vk.Result {
 					break
 				}
 				gotResps = append(gotResps, b)
+				if !p.sStreams() {
+					break // one RecvMsg returns the response and the final status
+				}
 			}
 		} else {
 			finalErr = sendErr
@@ -600,6 +696,16 @@ func runInBubble(p plan) vk.Result {
 	log.mu.Lock()
 	defer log.mu.Unlock()
 
+	// ---- PreparedMsg.Encode never fails for these messages (it only encodes and compresses)
+	var ee encodeError
+	if errors.As(sendErr, &ee) {
+		return bad("client: %v (request %d)", ee, sendFailedAt)
+	}
+	for _, e := range log.sendErrs {
+		if errors.As(e, &ee) {
+			return bad("server handler: %v", ee)
+		}
+	}
 	// ---- final status
 	if got := status.Code(finalErr); got != want.code {
 		return bad("client status = %v (%v), want %v", got, finalErr, want.code)
@@ -608,7 +714,7 @@ func runInBubble(p plan) vk.Result {
 		return bad("client SendMsg of request %d should have failed with ResourceExhausted; SendMsg error=%v at %d", want.reqsSeen, sendErr, sendFailedAt)
 	}
 	// ---- what the handler saw
-	if !p.Stream {
+	if !p.streamHandler() {
 		wantCalls := 0
 		if want.stage == "" || want.stage == "server_send" || want.stage == "client_recv" {
 			wantCalls = 1
@@ -629,7 +735,7 @@ func runInBubble(p plan) vk.Result {
 			return bad("request %d not delivered intact (len %d vs %d)", i, len(b), len(reqPayloads[i]))
 		}
 	}
-	if p.Stream && log.calls == 1 {
+	if p.streamHandler() && log.calls == 1 {
 		if want.handlerRecvErr {
 			if log.sawEOF {
 				return bad("handler saw a clean EOF after %d requests although request %d can never be delivered", len(log.reqs), want.reqsSeen)
@@ -637,7 +743,7 @@ func runInBubble(p plan) vk.Result {
 			if want.stage == "server_recv" && status.Code(log.recvErr) != codes.ResourceExhausted && !clientAborts {
 				return bad("handler RecvMsg error = %v, want ResourceExhausted", log.recvErr)
 			}
-		} else if !log.sawEOF || log.recvErr != nil {
+		} else if (p.cStreams() && !log.sawEOF) || log.recvErr != nil {
 			return bad("handler did not see EOF after all requests (recvErr=%v)", log.recvErr)
 		}
 		if want.stage == "server_send" {
@@ -650,7 +756,7 @@ func runInBubble(p plan) vk.Result {
 	}
 	// ---- what the client saw
 	wantSeen := want.respsSeen
-	if !p.Stream && want.code != codes.OK {
+	if !p.sStreams() && want.code != codes.OK {
 		wantSeen = 0
 	}
 	if len(gotResps) != wantSeen {
@@ -725,17 +831,19 @@ func near(a, b int) bool { d := a - b; return d >= -1 && d <= 1 }
 
 func classify(p plan, l limits, want expect) vk.Result {
 	out := vk.Result{}
-	cls := func(c string) { out.Classes = append(out.Classes, c) }
+	seen := map[string]bool{}
+	cls := func(c string) { // each class at most once per case: histogram shares are shares of cases
+		if !seen[c] {
+			seen[c] = true
+			out.Classes = append(out.Classes, c)
+		}
+	}
 	if want.stage == "" {
 		cls("all_delivered")
 	} else {
 		cls("fails_at_" + want.stage)
 	}
-	if p.Stream {
-		cls("stream")
-	} else {
-		cls("unary")
-	}
+	cls(shapeName(p))
 	if p.Compress {
 		cls("compressed")
 	}
@@ -753,8 +861,28 @@ func classify(p plan, l limits, want expect) vk.Result {
 			cls(fmt.Sprintf("sc_scope_%d", e.Scope))
 		}
 	}
-	for _, m := range p.Reqs {
+	// attempted: the model's stage sequence reaches the SendMsg of this message
+	// (everything up to and including the first failing message of a phase;
+	// responses only after the whole request phase succeeded).
+	reqFail := want.stage == "client_send" || want.stage == "server_recv"
+	for i, m := range p.Reqs {
 		w := wireLen(p, m)
+		if m.Prep && p.Stream {
+			cls("req_prepared")
+			if !reqFail || i <= want.reqsSeen {
+				if near(w, l.cSend) {
+					cls("prepared_msg_at_send_limit")
+					cls("prepared_req_at_client_send_limit")
+					out.NonTrivial = true
+				}
+				if w > l.cSend {
+					cls("prepared_msg_over_send_limit")
+				}
+				if p.Compress && w != m.Len && (w > l.cSend) != (m.Len > l.cSend) {
+					cls("prepared_compressed_straddles_send_limit")
+				}
+			}
+		}
 		if near(w, l.cSend) {
 			cls("req_at_client_send_limit")
 			if l.cSendSources >= 2 {
@@ -768,8 +896,24 @@ func classify(p plan, l limits, want expect) vk.Result {
 			cls("req_decompressed_at_limit")
 		}
 	}
-	for _, m := range p.Resps {
+	for j, m := range p.Resps {
 		w := wireLen(p, m)
+		if m.Prep && p.streamHandler() {
+			cls("resp_prepared")
+			if !reqFail && (want.stage == "" || j <= want.respsSeen) {
+				if near(w, l.sSend) {
+					cls("prepared_msg_at_send_limit")
+					cls("prepared_resp_at_server_send_limit")
+					out.NonTrivial = true
+				}
+				if w > l.sSend {
+					cls("prepared_msg_over_send_limit")
+				}
+				if p.Compress && w != m.Len && (w > l.sSend) != (m.Len > l.sSend) {
+					cls("prepared_compressed_straddles_send_limit")
+				}
+			}
+		}
 		if near(w, l.cRecv) || near(m.Len, l.cRecv) {
 			cls("resp_at_client_recv_limit")
 			if l.cRecvSources >= 2 {
@@ -789,7 +933,7 @@ func classify(p plan, l limits, want expect) vk.Result {
 func TestVerifC21(t *testing.T) {
 	vk.Check(t, vk.Unit[plan]{
 		ID: "C21", Name: "limits",
-		Rule: "one unary or bidi RPC (1-3 requests, 0-3 responses) per client/server pair; limits from: service config JSON (0-3 method configs of scope exact/service/default/other, each maxRequestMessageBytes/maxResponseMessageBytes present 75%, values 0..4096, specials, > MaxInt), dial default call options (50%), per-call options (40%), server MaxRecvMsgSize/MaxSendMsgSize (50%); 1/3 with a harness RLE compressor (constant payload shrinks, alternating payload doubles); message sizes at effective limit -1/0/+1/+2, below, empty. non-trivial = a message whose relevant size is within 1 of the effective client send/receive limit while >= 2 of {service config, dial option, call option} are set for that limit",
+		Rule: "one RPC per client/server pair: unary via Invoke, bidi, server-streaming, client-streaming or a unary method driven through NewStream (1-3 requests where the client streams, 0-3 responses where the server streams); where the sender holds a stream each message goes through SendMsg(msg) or PreparedMsg.Encode+SendMsg(pm) (50%); limits from: service config JSON (0-3 method configs of scope exact/service/default/other, each maxRequestMessageBytes/maxResponseMessageBytes present 75%, values 0..4096, specials, > MaxInt), dial default call options (50%), per-call options (40%), server MaxRecvMsgSize/MaxSendMsgSize (50%); 1/3 with a harness RLE compressor (constant payload shrinks, alternating payload doubles); message sizes at effective limit -1/0/+1/+2, below, empty. non-trivial = a message whose relevant size is within 1 of the effective client send/receive limit while >= 2 of {service config, dial option, call option} are set for that limit, or a PreparedMsg whose encoded size is within 1 of its sender's effective send limit is attempted (class prepared_msg_at_send_limit)",
 		Gen:  genPlan, Run: run,
 	})
 }
